@@ -68,6 +68,7 @@ pub fn run(ctx: &'static Ctx) {
     pairs(ctx);
     super::c02::explore_responses(ctx, P, canonical_oracle);
     super::c07::extension_maps_canonical(ctx, P);
+    super::c07::extension_maps_near_capacity(ctx, P);
     super::c15::standalone_canonical(ctx, P);
     ctx.require_outcomes(&["pair added to minimal", "pair removed from full"]);
 }
